@@ -241,6 +241,7 @@ def _mortar_assembly(S, MC):
     of weight x (1 - xi) (weight x xi) with xi the parameter along the RECEIVING segment, taken over the deformed coordinates."""
     for nm in ('assembly_mortar_integral', 'assemble_area_weighted_gaps', 'assemble_nodal_areas'):
         S.function('MortarContact.' + nm, getattr(MC, nm), 'J')
+    S.assume('mortar assembly clauses: one fixed small topology (two receiving segments sharing a node, three opposite segments, two neighbours each) with symbolic coordinates and displacements; the pair integral is an uninterpreted callee, and the integrand handed to it is identified by its values on five probe points (two integrands that agree there are not distinguished)')
     NN = 6
     segB = [[0, 1], [1, 2]]
     segA = [[3, 4], [4, 5], [5, 3]]
